@@ -48,6 +48,7 @@ const (
 	PCtxDeadline
 	PDefenders
 	PLLJunk
+	PClaimers
 )
 
 var ProbeNames = map[int]string{
@@ -81,6 +82,7 @@ var ProbeNames = map[int]string{
 	PCtxDeadline:           "query_context_with_its_own_deadline",
 	PDefenders:             "defend_name_callers_next_to_the_servers",
 	PLLJunk:                "ill_formed_or_response_datagrams_sent_to_the_llmnr_server",
+	PClaimers:              "several_nodes_claim_one_unique_name_at_the_same_moment",
 }
 
 var scenarioNames = [...]string{"nbns-server", "nbns-udp+tcp", "llmnr-server", "llmnr-client", "llmnr-client+server", "nbns-challenger", "nbns-lifecycle"}
@@ -89,7 +91,7 @@ var scenarioNames = [...]string{"nbns-server", "nbns-udp+tcp", "llmnr-server", "
 func Run(seed uint64, index int64, o hx.Opts) *hx.Result {
 	res := &hx.Result{Property: "C18", Index: index, Seed: seed, Extra: map[string]int64{}}
 	en := hx.AllKinds()
-	cfg := rt.Config{Seed: seed, Replay: o.Replay, Verbose: o.Verbose, NPoints: o.NPoints, Bias: hx.Swarm(seed, en), MaxSteps: 2_000_000}
+	cfg := rt.Config{Seed: seed, Replay: o.Replay, Verbose: o.Verbose, NPoints: o.NPoints, Bias: hx.Swarm(seed, en), MaxSteps: 20_000_000}
 	cfg.PCT = hx.SwarmPCT(seed)
 	if o.Scenario == "openum" || o.Scenario == "stopenum" || o.Scenario == "stopenum2" {
 		cfg.PCT = false
